@@ -190,9 +190,10 @@ RScript(vs, sd, t, n, pending, last, macro, atseen) ==
                        <<[c |-> open, typed |-> TRUE, tkeys |-> Keys(open)], [c |-> MotC("^", 0), typed |-> TRUE, tkeys |-> Keys(MotC("^", 0))],
                          [c |-> yank, typed |-> TRUE, tkeys |-> Keys(yank)], [c |-> del, typed |-> TRUE, tkeys |-> Keys(del)]>>,
                        last, m, atseen)
-         ELSE RScript(vs, sd, t + 1, n, <<[c |-> g, typed |-> TRUE, tkeys |-> Keys(IF g.k = "op" /\ g.op \in {"c", "!"} /\ ~ViCmd(vs, g).ok
-                                                                                      THEN [g EXCEPT !.op = "d", !.keys = <<>>] ELSE g)]>>,
-                      last, macro, atseen)
+         (* a change or filter whose target cannot be reached reads nothing more: it is typed (and recorded for ".") as the
+            equally failing deletion, without the text / the filter command *)
+         ELSE LET gc == IF g.k = "op" /\ g.op \in {"c", "!"} /\ ~ViCmd(vs, g).ok THEN [g EXCEPT !.op = "d", !.keys = <<>>] ELSE g
+              IN RScript(vs, sd, t + 1, n, <<[c |-> gc, typed |-> TRUE, tkeys |-> Keys(gc)]>>, last, macro, atseen)
 
 
 Start0 == [NewVi(RegNames, {97, 98}) EXCEPT !.ai = EnvN("AI", 1) = 1, !.rows = EnvN("ROWS", 23)]
